@@ -78,12 +78,14 @@ Definition chk_kernel (c : kcase) : bool :=
   end.
 
 (* ---- a history of calls on one object: the state machine of Model/Bucket.v against the recorded results *)
-Definition res_same (a b : bk_result) : bool :=
+Inductive hres := HZ (l : list Z) | HD (l : list dat) | HF (l : list float).
+Definition res_same (a : @bk_result float) (b : hres) : bool :=
   match a, b with
-  | ResZ x, ResZ y => list_eqb Z.eqb x y
-  | ResD x, ResD y => list_eqb dat_same x y
+  | ResZ x, HZ y => list_eqb Z.eqb x y
+  | ResD x, HD y => list_eqb dat_same x y
+  | ResF x, HF y => list_eqb ofl_same x y
   | _, _ => false
   end.
-Definition hcase := (Z * list (list Z) * list bk_call * list bk_result)%type.
+Definition hcase := (Z * list (list Z) * list bk_call * list hres)%type.
 Definition chk_history (c : hcase) : bool :=
-  let '(size, chunks0, calls, exp) := c in list_eqb res_same (bk_run (mk_obj size chunks0 None) calls) exp.
+  let '(size, chunks0, calls, exp) := c in list_eqb res_same (bk_run F64 (mk_obj size chunks0 None) calls) exp.
